@@ -376,6 +376,7 @@ def run_all(binary, tier):
     nseq, sv = seq_law(d, pool, canon, M)
     viol += sv
     viol += closure_copy_law(d)
+    viol += attr_distinct_law(d)
     d.close()
     return pool, canon, M, viol, nseq
 
@@ -395,6 +396,22 @@ def closure_copy_law(d):
             elif len(r1.results()) != 1 or r2.results():
                 out.append(("closure-copy:%s|%s" % (s, how), "a value does not equal its own copy: `%s ?eq` yields %d results and `%s !eq` yields %d (%s)" % (
                     copyq, len(r1.results()), copyq, len(r2.results()), how)))
+    return out
+
+
+def attr_distinct_law(d):
+    """Two different attributes of one DIE are never `==` (whatever their forms: a zero-sized flag_present attribute shares
+    its data address with the attribute stored after it), and every attribute equals itself."""
+    out = []
+    for f in ("/repo/tests/enum.o", "/repo/tests/nullptr.o", "/repo/tests/typedef.o"):
+        if not os.path.exists(f):
+            continue
+        rs = d.batch(["open id=x1 path=" + drv.hx(f),
+                      drv.run_cmd("entry (|D| [D attribute] (|L| L elem (|A| L elem (|B| (A pos != B pos) (A == B) [D offset, A label, B label]))))", i="x1", lim=5),
+                      drv.run_cmd("entry attribute (|A| (A != A))", i="x1", lim=5), "close id=x1"])
+        for name, r in (("distinct attributes of one DIE compare equal", rs[1]), ("an attribute differs from itself", rs[2])):
+            if r.crash or r.results() or r.first("e"):
+                out.append(("attr-distinct:%s|%s" % (os.path.basename(f), name), "%s on %s: %r" % (name, f, r.lines[:3])))
     return out
 
 
